@@ -35,10 +35,11 @@ CHECK = {
         {"fn": R + "vC25_json_robust", "replay": MO, "cases": {"maxLen": [20]}},
         {"fn": R + "vC25_unregistered", "replay": MO, "cases": {"json": [0, 1]}},
         {"fn": C + "vC25_frameTypeName", "replay": MO, "cases": {"maxLen": [16]}},
-        {"fn": C + "vC25_dispatch_serialize", "replay": MO, "cases": {"order": [0, 1, 2, 3, 4, 5, 6, 7], "kind": [0, 1, 2, 3]}},
-        {"fn": C + "vC25_dispatch_roundtrip", "replay": MO, "cases": {"order": [0, 1, 2, 3, 4, 5, 6, 7], "kind": [0, 1, 2], "producer": [0, 1, 2]},
+        {"fn": C + "vC25_dispatch_serialize", "replay": MO, "cases_quick": {"order": [0, 3, 5, 6], "kind": [0, 1, 2, 3]}, "cases_thorough": {"order": [0, 1, 2, 3, 4, 5, 6, 7], "kind": [0, 1, 2, 3]}},
+        {"fn": C + "vC25_dispatch_roundtrip", "replay": MO, "cases_quick": {"order": [0, 3, 5, 6], "kind": [0, 1, 2], "producer": [0, 1, 2]},
+         "cases_thorough": {"order": [0, 1, 2, 3, 4, 5, 6, 7], "kind": [0, 1, 2], "producer": [0, 1, 2]},
          "cover_optional": ("producer-refuses", "proto", "struct", "primitive", "name-collision", "end")},
-        {"fn": C + "vC25_dispatch_robust", "replay": MO, "cases": {"order": [0, 3, 5, 6], "maxLen": [16]}},
+        {"fn": C + "vC25_dispatch_robust", "replay": MO, "cases_quick": {"order": [0, 5, 6], "maxLen": [16]}, "cases_thorough": {"order": [0, 1, 2, 3, 4, 5, 6, 7], "maxLen": [24]}},
         {"fn": C + "vC25_dispatch_empty", "replay": MO},
         {"fn": C + "vC25_resolve", "replay": MO, "cases": {"userEntries": [0, 1, 2], "message": [0, 1, 2]}, "cover_optional": ("none", "user-entry-wins")},
         {"fn": A + "vC25_terminated_roundtrip", "cases": {"withPath": [0, 1]}, "cover_optional": ("no-path", "with-path"), "opts": {"substitute": {}, "itoa_digits": 4}},
